@@ -174,6 +174,13 @@ def dtype_compatible(declared, actual, has_null, mode):
         return True
     if mode == "exact":
         return str(declared) == str(actual)
+    if mode == "promo":
+        # identical, or pandas' int/bool <-> float/object promotion that depends on whether a
+        # *partition* saw missing values (e.g. rows introduced by an outer join and filtered out later)
+        if str(declared) == str(actual):
+            return True
+        dk, ak = dtype_kind(declared), dtype_kind(actual)
+        return {dk, ak} <= {"int", "bool", "float", "str/obj"} and dk != ak and ("int" in (dk, ak) or "bool" in (dk, ak))
     dk, ak = dtype_kind(declared), dtype_kind(actual)
     if dk == ak:
         return True
